@@ -67,6 +67,14 @@ theorem default_level_exists : ∀ l ∈ loaded, isNetwork l.d = true → defaul
 theorem levels_form_single_tree : ∀ l ∈ loaded, isNetwork l.d = true → singleTree l.d = true := by
   decide +kernel
 
+/-- for **every** definition (not only the embedded ones): key = name and a single tree exclude the
+nil-map panic of `buildPrivGraph` (a `previous-priv` that is no level's name) -/
+theorem tree_definitions_build_graph (d : Def) (hk : keyEqName d = true) (ht : singleTree d = true) :
+    graphBuildable d = true := singleTree_graphBuildable d hk ht
+
+example : ∃ l ∈ loaded, keyEqName l.d = true ∧ singleTree l.d = true ∧ l.d.levels.length = 4 := by
+  decide +kernel
+
 /-- the key of every level in the `privilege-levels` map is the level's `name` (the graph is
 keyed by name, the map by key) -/
 theorem map_key_eq_name : ∀ l ∈ loaded, keyEqName l.d = true := by decide +kernel
